@@ -1038,7 +1038,7 @@ def run(ck):
     text_stream(ck, ck.scale)
     if ck.broken and not ck.violations:
         oracle(ck, ck.scale * 8)
-    ck.assumptions += ['lark (LALR tables, contextual lexer) and the transformer callbacks are exercised by the differential run, not modelled',
+    ck.assumptions += ['grammar/lexer of def_file.py: modelled (Model/DefText.lean, round-trip theorem) and compared with lark on generated, hand-written and mutated texts (parse tree with all tokens); that lark implements the grammar as the model reads it is checked there, not proved; the transformer callbacks are exercised by the attribute oracle',
                        'ground truth of wires/vias: backwards search for the most recent explicit coordinate; array positions as a set per DO statement',
                        'wires/vias list the ROUTED wiring only (FIXED/COVER/NOSHIELD wiring is compared as raw DefWire records)',
                        'demanded listing for a regular-net wire: width None; for a net without + ROUTED: empty listings']
